@@ -158,4 +158,13 @@ PROPS = {
         "what": "accept/reject (never panic), AST, Route.String(), re-parse of the rendering vs model; spec: accepted iff the byte-level BNF recogniser accepts, with its structure, and the canonical form re-parses to the same structure and renders to itself.",
         "assumes": [],
     },
+    "C04": {
+        "n_quick": 4000, "n_thorough": 100000,
+        "technique": "Coq proof (characterisation of Value over scope chains, Invoke/Apply by induction over parameters) + correspondence with reflect-built handlers",
+        "level_text": "proof: C04_exact_nearest / C04_implementors_before_parent / C04_else_parent / C04_replace / C04_request_sees_own / C04_request_local / C04_invoke_error / C04_invoke_args / C04_fast_eq for every type universe and every chain of scopes; tied to the code by Map/MapTo/Set/Value/Invoke/Apply histories on 1-3 nested injectors over an 11-type universe (int, string, *struct, struct, chan, <-chan via Set, two nested interfaces, interface{}, named int, plain struct; implements table computed by reflect), handlers built with reflect.MakeFunc for random signatures plus two hand-written FastInvoker types, structs built with reflect.StructOf (tagged, untagged, unexported fields), and Flame-level requests whose handlers map values for later handlers",
+        "level_note": "trusts Coq kernel, extraction, glue; where Go iterates a map and takes any implementor the model answers the set of admissible values and the comparison is membership; reflect's call mechanics are not modelled",
+        "rule": "3-12 operations per history (30% Map, 15% MapTo, Set of <-chan, Value, Invoke with 0-3 random parameter types or plain+fast pairs, Apply with 1-4 fields, Flame requests with 1-2 requests x 1-3 handlers mapping 0-1 values). Non-trivial: an Invoke with >= 2 parameters, a Value with several admissible implementors, or a request-scope scenario; distinct by input.",
+        "what": "per operation: value identity / none, call with argument identities + call count + results unchanged, error naming the type + call count 0, fields set by Apply; model vs implementation (membership for implementor choice).",
+        "assumes": ["Set is used with values of the key type"],
+    },
 }
